@@ -12,7 +12,7 @@ LEVEL = 'exploration'
 RULE = (
     'Generated plans: semaphore_limit L 1-3, scope global/class/self over 2 classes x 3 instances, 2-8 callers per '
     'session with start times, body durations, outcomes (return, raise with retries, attempt timeouts), cancellation '
-    'while waiting or running, semaphore_timeout (None or off-grid), lax on/off; 1-3 successive virtual-time event '
+    'while waiting or running or a few loop ticks after the call (the system-overload check is made due on every call), semaphore_timeout (None or off-grid), lax on/off; 1-3 successive virtual-time event '
     'loops in one process re-using the same semaphore name. Oracle: per scope key, bodies in progress that did not wait '
     'the full acquisition timeout never exceed L; a caller whose scope has a free slot starts at its call instant; a '
     'body runs without a slot only after waiting the full acquisition timeout with lax=True; non-lax acquisition '
@@ -47,6 +47,8 @@ def _case(draw):
                 'd': draw(q(0, 20)),
                 'out': draw(st.sampled_from(['ok', 'ok', 'ok', 'raise'])),
                 'cancel': draw(st.one_of(st.none(), st.none(), st.integers(0, 300).map(lambda k: k / 8 + 1 / 64))),
+                # cancellation a few event-loop ticks after the call was issued (between acquiring the slot and running the body)
+                'cancel_ticks': draw(st.one_of(st.none(), st.none(), st.none(), st.integers(1, 6))),
             })
         sessions.append(callers)
     return {'L': L, 'scope': scope, 'lax': lax, 'sem_timeout': sem_timeout, 'timeout': timeout, 'retries': retries, 'sessions': sessions}
@@ -61,8 +63,25 @@ def budget(tier):
 
 
 def run_case(c):
+    import bubus.helpers as helpers
     from bubus.helpers import retry
 
+    # the periodic system-overload check sits between acquiring the slot and running the body: make it due on every call
+    # and non-blocking (psutil.cpu_percent(interval=0.1) would sleep 0.1 s of wall clock)
+    saved = (helpers._overload_check_interval, helpers._last_overload_check, getattr(helpers.psutil, 'cpu_percent', None) if helpers.psutil else None)
+    helpers._overload_check_interval = -1.0
+    helpers._last_overload_check = 0.0
+    if helpers.psutil is not None:
+        helpers.psutil.cpu_percent = lambda interval=None: 0.0
+    try:
+        return _run_case(c, retry)
+    finally:
+        helpers._overload_check_interval, helpers._last_overload_check = saved[0], saved[1]
+        if helpers.psutil is not None and saved[2] is not None:
+            helpers.psutil.cpu_percent = saved[2]
+
+
+def _run_case(c, retry):
     name = f'bvt_sem_{next(_uid)}_{id(c) % 9973}'
     viol = []
     stats = collections.Counter()
@@ -130,6 +149,14 @@ def run_case(c):
                 t = asyncio.ensure_future(run_call(o, rec))
                 if cl['cancel'] is not None:
                     loop.call_later(cl['cancel'], t.cancel)
+                if cl.get('cancel_ticks'):
+
+                    async def tick_cancel(n=cl['cancel_ticks']):
+                        for _ in range(n):
+                            await asyncio.sleep(0)
+                        t.cancel()
+
+                    asyncio.ensure_future(tick_cancel())
                 try:
                     rec['res'] = ('ret', await t)
                 except asyncio.CancelledError:
